@@ -313,6 +313,11 @@ func TestC12(t *testing.T) {
 			switch op.Kind {
 			case "merge", "decmerge":
 				cl.label("after-merge")
+				// judged at once: what a merge or a decoding leaves behind (an unsorted buffer, say) may be repaired by
+				// the very next addition
+				if msg := checkCoherence(t, u, cl); msg != "" {
+					t.Fatalf("C12 %s right after %s: %s", c, op, msg)
+				}
 			case "clear":
 				cl.label("after-clear")
 			case "encdec":
